@@ -32,7 +32,7 @@ CONFORMS = ['absent', 'none', 'value', 'raises', 'falsy', 'raises_attrerror', 't
 HOOKS = ['none', 'value', 'falsy', 'raise', 'pop_last', 'clear', 'append', 'remove_self', 'reenter']
 BLOCK = 1600
 ENUM_NOTE = ('complete product {custom __adapt__: 6} x {__conform__: 10} x {provided: 2} x {hook lists of length 0-3 over 9 hook '
-             'behaviours: 820} x {alternate: 2}, plus the sub-interface and registry-hook variants over the smaller hook alphabet; '
+             'behaviours: 820} x {alternate: 2}, plus the sub-interface, registry-hook and tuple-object variants over the smaller hook alphabet; '
              'everything outside that product is sampled')
 
 
@@ -74,6 +74,10 @@ def extra_cases():
                                                'alt': alt, 'sub': False, 'reg': None}
                         yield {'custom': custom, 'conform': conform, 'provided': provided, 'hooks': list(hooks), 'alt': alt,
                                'sub': False, 'reg': None, 'falsy_obj': True}
+                        if len(hooks) <= 1:
+                            for tl in (0, 1, 3):
+                                yield {'custom': custom, 'conform': conform, 'provided': provided, 'hooks': list(hooks), 'alt': alt,
+                                       'sub': False, 'reg': None, 'tuple_obj': tl}
                         for regpos in (0, len(hooks)):
                             for regkind in ('hit', 'miss', 'factory_none'):
                                 yield {'custom': custom, 'conform': conform, 'provided': provided, 'hooks': list(hooks), 'alt': alt,
@@ -98,6 +102,8 @@ def generate(seed, mode):
         c = {'custom': o.choice(CUSTOMS), 'conform': o.choice(CONFORMS), 'provided': o.random() < 0.3,
              'hooks': [o.choice(HOOKS) for _ in range(nh)], 'alt': o.random() < 0.5, 'sub': (lambda x: 'method' if x < 0.06 else 'method2' if x < 0.09 else 'method3' if x < 0.12 else x < 0.3)(o.random()), 'reg': None,
              'falsy_obj': o.random() < 0.25}
+        if h64(seed, 'tuple-object', len(ops)) % 8 == 0:
+            c['tuple_obj'] = h64(seed, 'tuple-len', len(ops)) % 4
         if h64(seed, 'churn', len(ops)) % 6 == 0:
             c['churn'] = True
         if o.random() < 0.25:
@@ -148,7 +154,7 @@ def execute(program, ctx, mode):
             class I(Interface):
                 @interfacemethod
                 def __adapt__(self, obj):
-                    calls.append('custom_adapt')
+                    calls.append('custom_adapt' if obj is cur['ob'] else 'custom_adapt:other-object')
                     if custom == 'ret_none':
                         return None
                     if custom == 'ret_val':
@@ -189,7 +195,7 @@ def execute(program, ctx, mode):
     class AttrErrSub(AttributeError):
         pass
 
-    def mk_obj(conform, provided, I, falsy=False, cshape=None):
+    def mk_obj(conform, provided, I, falsy=False, cshape=None, tup=None):
         ns = {}
         if falsy:
             ns['__bool__'] = lambda self: False
@@ -233,7 +239,15 @@ def execute(program, ctx, mode):
                 pass            # set on the instance below
             else:
                 ns['__conform__'] = c
-        cls = type('Ob', (object,), ns)
+        # (the adapted object may itself be a tuple -- of no, one or several elements: it is one argument, not an argument list)
+        cls = type('Ob', (object,) if tup is None else (tuple,), ns)
+        if tup is not None and conform != 'unbound':
+            ob = cls([object()] * tup)
+            if cshape == 'instattr' and conform not in ('absent', 'attr_attrerror', 'attr_attrerror_sub', 'attr_raises'):
+                ob.__conform__ = lambda iface: c(ob, iface)
+            if provided:
+                directlyProvides(ob, I)
+            return ob
         if conform == 'unbound':
             ob = cls            # the object is a class; its __conform__ is an instance method
         else:
@@ -428,7 +442,7 @@ def execute(program, ctx, mode):
                 I0, J0, K0, K20, K30 = mk_iface(case['custom'])
             I = {'method': K0, 'method2': K20, 'method3': K30}.get(case.get('sub')) or (J0 if case.get('sub') else I0)
             hook_vals.clear()
-            ob = mk_obj(case['conform'], case['provided'], I, case.get('falsy_obj', False), case.get('cshape'))
+            ob = mk_obj(case['conform'], case['provided'], I, case.get('falsy_obj', False), case.get('cshape'), case.get('tuple_obj'))
             hooks = [mk_hook(k, i, None) for i, k in enumerate(case['hooks'])]
             if case.get('reg'):
                 pos, kind = case['reg']
